@@ -253,3 +253,83 @@ def classify(t, v):
     if '(forward_count)' in v['msg']:
         return 'graph/forward_producer_without_exactly_one_consumer'
     return t.role + '/' + v['msg'][:50]
+
+
+# ------------------------------------------------------------------------------------ demultiplexer addresses
+
+def topology_build_harness(w, nhosts, nlinks):
+    """NetworkTopology::build over an arbitrary set of links: the port of every demultiplexer endpoint is the same
+    whatever the hash-map iteration order (hence on every host), and no two endpoints of a host share a port"""
+    build = w.impls[(None, 'NetworkTopology')]['build'][0]
+    fields = w.src.struct_fields('NetworkTopology')
+
+    def h(ex):
+        ex.env['hash_order'] = 'any'
+        # links between blocks 1..3, replicas on up to nhosts hosts
+        links = []
+        for i in range(nlinks):
+            fb = 1 + ex.choose(2, 'from block')
+            tb = fb + 1 + ex.choose(2, 'to block')
+            fh, th = ex.choose(nhosts, 'from host'), ex.choose(nhosts, 'to host')
+            fr, tr = ex.choose(2, 'from replica'), ex.choose(2, 'to replica')
+            links.append(((fb, fh, fr), (tb, th, tr)))
+        nxt = MapModel('HashMap')
+        for f, t in links:
+            key = Agg('tuple', None, [hlib.coord(w, *f), Opaque('TypeId')])
+            i = None
+            for j, (k, v) in enumerate(nxt.entries):
+                if [x.v for x in k.fields[0].fields] == list(f):
+                    i = j
+            if i is None:
+                nxt.entries.append([key, VecModel([])])
+                i = len(nxt.entries) - 1
+            nxt.entries[i][1].items.append(Agg('tuple', None, [hlib.coord(w, *t), False]))
+        base = [ex.fresh_int('u16', 'base_port%d' % i) for i in range(nhosts)]
+        for b in base:
+            ex.assume(z3.ULT(b.v, 60000))
+        sch, remote = mk_scheduler(ex, w, [Int('u64', 2)] * nhosts, 0)
+        for i, hc in enumerate(remote.get('hosts').items):
+            hc.set('base_port', base[i])
+        vals = {f: Opaque(f) for f in fields}
+        vals.update(config=sch.get('config'), next=nxt, prev=MapModel('HashMap'), senders_metadata=MapModel('HashMap'),
+                    block_replicas=MapModel('HashMap'), demultiplexer_addresses=MapModel('HashMap'))
+        topo = Agg('struct', 'NetworkTopology', [vals[f] for f in fields], list(fields))
+        holder = [topo]
+        ex.call_function(build, [Ref(holder, 0)])
+        addrs = holder[0].get('demultiplexer_addresses').entries
+        # canonical expectation: endpoints (to block, to host, from block) sorted, ports handed out per host in order
+        eps = sorted(set((t[0], t[1], f[0]) for f, t in links))
+        sx = lambda: {'links': links, 'addresses': [(repr(k), repr(v)) for k, v in addrs]}
+        if len(addrs) != len(eps):
+            raise Violation('%d demultiplexer addresses for %d endpoints' % (len(addrs), len(eps)), hlib._wit(ex), sx())
+        used = {}
+        want = {}
+        for (tb, th, fb) in eps:
+            want[(tb, th, fb)] = used.get(th, 0)
+            used[th] = used.get(th, 0) + 1
+        for k, v in addrs:
+            bc = k.get('coord')
+            key = (bc.get('block_id').v, bc.get('host_id').v, k.get('prev_block_id').v)
+            if key not in want:
+                raise Violation('address assigned to an endpoint that has no link', hlib._wit(ex), sx())
+            port = v.fields[1]
+            check(ex, port.z() == base[key[1]].v + want[key],
+                  'demultiplexer port depends on the iteration order of the link map (hosts would disagree) or '
+                  'collides on a host', sx)
+        if len(eps) > 1:
+            hlib.cover(ex, 'several_endpoints')
+        return sx()
+    return h
+
+
+_graph_tasks = TASKS
+
+
+def TASKS(tier):    # noqa: F811
+    ts = _graph_tasks(tier)
+    for nh, nl in ([(2, 2)] if tier == 'quick' else [(2, 2), (2, 3), (3, 2)]):
+        ts.append(Task('topology_build_h%d_l%d' % (nh, nl), 'topology_build_harness', {'nhosts': nh, 'nlinks': nl},
+                       bounds='NetworkTopology::build with %d links between replicas of 3 blocks on %d hosts (every '
+                              'choice), symbolic base ports, the link map iterated in every order' % (nl, nh),
+                       role='topology_build', opts={'covers': ['several_endpoints']}, budget=300))
+    return ts
